@@ -231,10 +231,13 @@ impl PoolWorld {
                 if self.assets.contains(&tokinfo) { let i = self.assets.iter().position(|a| *a == tokinfo).unwrap(); self.allow(ALICE, pool.as_str(), amounts[i]); }
                 let funds = self.funds(&amounts);
                 let al = self.asset_list(&amounts);
+                // odd amount scales: the minted LP is addressed to another account (`receiver`), with a slippage tolerance given
+                let receiver = if x % 2 == 1 { Some(BOB.to_string()) } else { None };
+                let tol = if x % 2 == 1 { Some(cosmwasm_std::Decimal::percent(50)) } else { None };
                 if self.kind.is_pair() {
-                    self.app.execute_contract(Addr::unchecked(ALICE), pool, &pair::ExecuteMsg::ProvideLiquidity { assets: [al[0].clone(), al[1].clone()], slippage_tolerance: None, receiver: None }, &funds)
+                    self.app.execute_contract(Addr::unchecked(ALICE), pool, &pair::ExecuteMsg::ProvideLiquidity { assets: [al[0].clone(), al[1].clone()], slippage_tolerance: tol, receiver }, &funds)
                 } else {
-                    self.app.execute_contract(Addr::unchecked(ALICE), pool, &trio::ExecuteMsg::ProvideLiquidity { assets: [al[0].clone(), al[1].clone(), al[2].clone()], slippage_tolerance: None, receiver: None }, &funds)
+                    self.app.execute_contract(Addr::unchecked(ALICE), pool, &trio::ExecuteMsg::ProvideLiquidity { assets: [al[0].clone(), al[1].clone(), al[2].clone()], slippage_tolerance: tol, receiver }, &funds)
                 }
             }
             P_PROVIDE_HELPER => {
